@@ -20,7 +20,7 @@ from machines.memview import View, handlers as mem_handlers
 PID = "C15"
 RULE = (
     "loops with S in {2,3,4} (thorough: 5) stages, first stage DM or compute (alternating), stage-0 input a tile of A indexed by the induction variable or the whole A, last "
-    "output a tile of O or the whole O, optional extra read-only operand on a compute stage; bounds (0,N,1) for N in 0..6, (1,5,1), (0,6,2), (2,6,1), each with "
+    "output a tile of O or the whole O, optional extra read-only operand on a compute stage; the buffer between stage 0 and 1 a local allocation or a tile of an argument (variants mi..mwhole), an input tile selected by the loop's own lower-bound value (ilb); bounds (0,N,1) for N in 0..6, (1,5,1), (0,6,2), (2,6,1), each with "
     "constant bounds or a run-time upper bound / lower bound / step; all interleavings of DM and compute core between barriers. distinct = distinct (loop, bounds, outcome set); "
     "non-trivial = the pipeline was constructed (IR changed)"
 )
@@ -43,7 +43,8 @@ LOOPS_MORE = [(0, 7, 1), (0, 8, 1), (1, 1, 1), (3, 2, 1), (0, 7, 3), (1, 8, 2)]
 # trail: a conditional copy follows the last barrier of the body.
 # skip: the compute stage 2 additionally reads the buffer stage 0 wrote (producer and consumer two stages apart; needs S >= 3 and a compute stage 2)
 # mwhole: stage 0 writes tile i of M, the compute stage 1 reads the WHOLE of M (one index-dependent and one loop-invariant view of one buffer)
-MIDS = ["alloc", "mi", "mc", "mi2", "mc2", "lv", "late", "trail", "skip", "mwhole"]
+# ilb: the input tile is selected by the very SSA value that is the loop's lower bound (a shared constant, as after CSE) instead of by %i
+MIDS = ["alloc", "mi", "mc", "mi2", "mc2", "lv", "late", "trail", "skip", "mwhole", "ilb"]
 SV0 = "memref<1xi32, strided<[1]>>"
 
 
@@ -62,6 +63,8 @@ def space(tier):
                                     if mid == "skip" and (S < 3 or first != "C"):
                                         continue
                                     if mid == "mwhole" and first != "D":
+                                        continue
+                                    if mid == "ilb" and inkind != "tile":
                                         continue
                                     if dyn in (2, 4) and tier == "quick" and (extra or loop not in ((0, 5, 1), (2, 6, 1), (0, 6, 2), (0, 0, 1))):
                                         continue
@@ -122,7 +125,7 @@ def build(case):
     src0 = ("%A1", MT1)
     dstl = ("%O1", MT1)
     if inkind == "tile":
-        lines.append(f"    %tin = memref.subview %A[%i] [1] [1] : {MTT} to {SV}")
+        lines.append(f"    %tin = memref.subview %A[{names['lb'] if mid == 'ilb' else '%i'}] [1] [1] : {MTT} to {SV}")
         src0 = ("%tin", SV)
     if outkind == "tile":
         if mid != "late":
